@@ -3,7 +3,8 @@ Driver command for the data-loader model (C12).
 
   loader <variant> <registry> <reader> <log> <history>
 
-  variant   five 0/1 digits: keyPost keyTypes newOnly sliceExact dequeFull   (11111 = the code as it is)
+  variant   six 0/1 digits: keyPost keyTypes newOnly sliceExact dequeFull sliceNonPos   (111111 = the code as it is;
+            five digits = the sixth is 0)
   registry  t:known:hasP1:hasSys:alignP1:numpyP1,...        in the order of list(message_type_to_class.keys())
   reader    <dropsUntimed 0/1>/<keepsUnavailable 0/1>/<available ids a.b.c or ->/<s_e_abs=ord.ord...|...>   (index[time_range] per range used)
   log       ord:type:time:src,...             time = scaled integer or n; `-` = empty log
@@ -45,7 +46,8 @@ def parseTR (s : String) : Option TimeRange :=
 
 def parseVariant (s : String) : Option Variant :=
   match s.toList.map (fun c => bit (String.singleton c)) with
-  | [some a, some b, some c, some d, some e] => some ⟨a, b, c, d, e⟩
+  | [some a, some b, some c, some d, some e] => some ⟨a, b, c, d, e, false⟩
+  | [some a, some b, some c, some d, some e, some f] => some ⟨a, b, c, d, e, f⟩
   | _ => none
 
 def parseReg (s : String) : Option Reg := do
